@@ -685,7 +685,13 @@ func (s *programState) receiveFrom(destination parser.Destination, amount *big.I
 				break
 			}
 
-			err = handler(destinationClause.To, utils.MinBigInt(cap, remainingAmount))
+			cappedAmount := utils.MinBigInt(cap, remainingAmount)
+			// a negative cap counts as zero (same as for sources)
+			if cappedAmount.Sign() == -1 {
+				cappedAmount.SetInt64(0)
+			}
+
+			err = handler(destinationClause.To, cappedAmount)
 			if err != nil {
 				return err
 			}
